@@ -208,6 +208,22 @@ def _contour_pts(c, k):
             c.addPoint((x + k, y), "line")
 
 
+def _image_same_as_disk(s):
+    """assign an image that has not been read yet the very bytes its file holds (read by the harness itself)"""
+    path = getattr(s.font, "path", None)
+    if not path or not os.path.isdir(path):
+        return False
+    for n in sorted(s.fileNames):
+        rec = s._data.get(n)
+        fp = os.path.join(path, "images", n)
+        if rec is not None and rec.get("data") is None and rec.get("onDisk") and os.path.isfile(fp):
+            with open(fp, "rb") as f:
+                data = f.read()
+            s[n] = data
+            return True
+    return False
+
+
 # glyph attributes that live in the glyph's lib: the lib object is what changes (the glyph follows through its callback)
 VIA_LIB = {"markColor=", "verticalOrigin="}
 ALSO_LIB = {"topMargin=", "bottomMargin="}
@@ -288,7 +304,8 @@ CATALOGUE = {
     "features": [_set("text", ["# a\n", "# b\n", "# c\n"])],
     "images": [("__setitem__", lambda s, k: s.__setitem__("i%d.png" % (k % 3), fg.png_bytes(20 + k)),
                 lambda s: bool(s.fileNames) and (s.__setitem__(sorted(s.fileNames)[0], s[sorted(s.fileNames)[0]]) or True)),
-               ("__delitem__", lambda s, k: (s.__setitem__("d%d.png" % k, fg.png_bytes(40 + k)), s.__delitem__("d%d.png" % k)), None)],
+               ("__delitem__", lambda s, k: (s.__setitem__("d%d.png" % k, fg.png_bytes(40 + k)), s.__delitem__("d%d.png" % k)), None),
+               ("__setitem__unread", None, _image_same_as_disk)],
     "data": [("__setitem__", lambda s, k: s.__setitem__("f%d.txt" % (k % 3), fg.data_bytes(20 + k)), None),
              ("__delitem__", lambda s, k: (s.__setitem__("d%d.txt" % k, fg.data_bytes(40 + k)), s.__delitem__("d%d.txt" % k)), None)],
 }
@@ -544,6 +561,26 @@ class Recorder(object):
         self.log.append((notification.name, id(notification.object)))
 
 
+class Watcher(object):
+    """a second observer, registered per object for that object's own `*.Changed`; the only one an observer-scoped
+    hold (`ohold`) applies to: everybody else (the parents' callbacks, the Recorder) must be served as usual"""
+
+    def __init__(self, tree):
+        self.log = []
+        self.watched = set()
+        self.tree = tree
+        self.sync()
+
+    def sync(self):
+        for (obj, kind, parent) in self.tree.nodes:
+            if id(obj) not in self.watched:
+                self.watched.add(id(obj))
+                obj.addObserver(self, "cb", obj.changeNotificationName)
+
+    def cb(self, notification):
+        self.log.append((notification.name, id(notification.object)))
+
+
 # ---------------------------------------------------------------------------------------
 # generation
 # ---------------------------------------------------------------------------------------
@@ -559,7 +596,7 @@ def gen_case(rng, maxops):
         if not l["glyphs"]:
             l["glyphs"]["A"] = fg.gen_glyph(rng, "A")
         for gn, g in l["glyphs"].items():
-            if not g["contours"]:
+            if not g["contours"] and rng.random() < 0.6:
                 g["contours"].append({"id": None, "points": [[0, 0, "line", False, None, None], [90, 0, "line", False, None, None],
                                                                [40, 70, "line", False, None, None]]})
             g["components"] = [["nobase0", [1, 0, 0, 1, 0, 0], None]]
@@ -571,6 +608,8 @@ def gen_case(rng, maxops):
     origin = rng.choice(["disk", "disk", "memory", "saved"])
     ops = []
     held = []
+    watcher = rng.random() < 0.5
+    oheld = False
     for _ in range(rng.randint(3, maxops)):
         r = rng.random()
         kind = rng.choice(KINDS)
@@ -579,6 +618,9 @@ def gen_case(rng, maxops):
             ops.append(["touch", kind, pick, rng.randrange(1000)])
         elif r < 0.72:
             ops.append(["same", kind, pick, rng.randrange(1000)])
+        elif r < 0.76 and watcher:
+            ops.append(["orelease" if oheld else "ohold", "font", 0])
+            oheld = not oheld
         elif r < 0.86:
             hk = rng.choice(["glyph", "layer", "contour", "layerSet", "font", "lib", "glyph"])
             ops.append(["hold", hk, pick])
@@ -593,7 +635,9 @@ def gen_case(rng, maxops):
                 ["release", "glyph", pick], ["release", "layer", pick]]
     for h in reversed(held):
         ops.append(["release"] + h)
-    return dict(spec=spec, origin=origin, ops=ops)
+    if oheld:
+        ops.append(["orelease", "font", 0])
+    return dict(spec=spec, origin=origin, ops=ops, watcher=watcher)
 
 
 def generate(rng, tier):
@@ -635,6 +679,25 @@ def _pick(tree, kind, pick, need_attached=True):
     return cands[pick % len(cands)]
 
 
+def _fingerprint(obj, kind):
+    """the own data of the objects a glyph-level mutator edits on the side (moving a glyph moves its contours, components
+    and anchors): an object whose notifications are held and that is dirty already would otherwise change unseen"""
+    try:
+        if kind == "contour":
+            return (obj.identifier, tuple((p.x, p.y, p.segmentType, p.smooth, p.name, p.identifier) for p in obj))
+        if kind == "component":
+            return (obj.baseGlyph, tuple(obj.transformation), obj.identifier)
+        if kind in ("anchor", "guideline", "image"):
+            return tuple(sorted((k, repr(v)) for k, v in dict(obj).items()))
+    except Exception:
+        return None
+    return None
+
+
+def _fingerprints(tree):
+    return {j: _fingerprint(o, k) for j, (o, k, p) in enumerate(tree.nodes) if k in ("contour", "component", "anchor", "guideline", "image")}
+
+
 def _dirty_set(tree):
     res = []
     for i, (o, k, p) in enumerate(tree.nodes):
@@ -649,7 +712,10 @@ def run(case, want_lines):
         font = _build(case, tmpd)
         tree = Tree(font)
         rec = Recorder(font)
-        keep = [tree, rec]
+        watcher = Watcher(tree) if case.get("watcher") else None
+        oheld_at = None
+        owed_held = []
+        keep = [tree, rec, watcher]
         outs, lines, viol = [], [], []
         stats = {"origin." + case["origin"]: 1}
         # initial flags
@@ -665,8 +731,11 @@ def run(case, want_lines):
             i = _pick(tree, kind, op[2])
             before_dirty = set(_dirty_set(tree))
             before_attached = {j for j in range(len(tree.nodes)) if tree.attached(j)}
+            before_fp = _fingerprints(tree) if op[0] == "touch" else {}
             before_order = copy.deepcopy(font.lib.get("public.glyphOrder"))
             mark = len(rec.log)
+            wlen = len(watcher.log) if watcher is not None else 0
+            wbefore = set(watcher.watched) if watcher is not None else set()
             nnodes = len(tree.nodes)
             line = [Atom("noop")]
             if i is None:
@@ -708,6 +777,25 @@ def run(case, want_lines):
                         deep = True
                 else:
                     line = [Atom("same"), i]
+            elif op[0] in ("ohold", "orelease"):
+                # (observer-scoped and object-scoped brackets are not nested into each other: what a release re-posts into
+                # another hold is the notification centre's business, C04)
+                if watcher is None or (op[0] == "ohold") == (oheld_at is not None) or (op[0] == "ohold" and any(holds.values())):
+                    outs.append([Atom("skip")])
+                    lines.append([Atom("skip")])
+                    continue
+                wmark = len(watcher.log)
+                if op[0] == "ohold":
+                    font.dispatcher.holdNotifications(observer=watcher)
+                    oheld_at = (len(rec.log), len(watcher.log))
+                    owed_held = []
+                else:
+                    font.dispatcher.releaseHeldNotifications(observer=watcher)
+                line = [Atom("same"), 0]
+            elif op[0] == "hold" and oheld_at is not None:
+                outs.append([Atom("skip")])
+                lines.append([Atom("skip")])
+                continue
             elif op[0] == "hold":
                 obj.holdNotifications()
                 holds[i] = holds.get(i, 0) + 1
@@ -734,6 +822,8 @@ def run(case, want_lines):
                 # through the glyph order; the glyph lib through markColor / verticalOrigin / vertical margins): the deepest
                 # objects that became dirty or announced a change.  The model then predicts the whole propagation.
                 cand = (set(changed) | {j for j in (after_dirty - before_dirty) if j < nnodes})
+                after_fp = _fingerprints(tree)
+                cand |= {j for j, v in before_fp.items() if tree.attached(j) and after_fp.get(j) != v}
                 libchild = tree.ids.get(id(getattr(obj, "lib", None))) if kind == "glyph" else None
                 if kind == "glyph" and name in VIA_LIB and libchild is not None:
                     cand.add(libchild)          # stored in the glyph lib: the lib is the object that changes
@@ -766,6 +856,41 @@ def run(case, want_lines):
             outs.append([[Atom("dirty"), [Atom("set")] + sorted(j for j in after_dirty if j < nnodes or True)],
                          [Atom("changed"), [Atom("set")] + sorted(set(changed))]])
             # ---- oracle -----------------------------------------------------------------
+            if viol:
+                continue
+            if watcher is not None:
+                if op[0] == "ohold":
+                    stats["ohold"] = stats.get("ohold", 0) + 1
+                elif op[0] == "orelease":
+                    # everything the un-held Recorder heard from a watched object during the bracket reaches the watcher
+                    # now (once: coalesced), nothing else does
+                    r0, w0 = oheld_at
+                    oheld_at = None
+                    owed = [e for e in owed_held if e[1] in tree.ids]
+                    want = []
+                    for e in owed:
+                        if e not in want:
+                            want.append(e)
+                    got = [e for e in watcher.log[w0:] if e[1] in tree.ids]
+                    if sorted(got) != sorted(want):
+                        viol.append(dict(clause="C02/held-observer-not-served", signature="C02/held-observer-not-served/orelease",
+                                         step=step, missing=len([e for e in want if e not in got]),
+                                         extra=len([e for e in got if e not in want])))
+                    if want:
+                        stats["ohold.released_nonempty"] = stats.get("ohold.released_nonempty", 0) + 1
+                elif oheld_at is None:
+                    # no observer-scoped hold: the watcher hears exactly what the Recorder hears about the watched objects
+                    wnew = [e for e in watcher.log[wlen:] if e[1] in tree.ids]
+                    rnew = [e for e in rec.log[mark:] if e[0].endswith(".Changed") and e[1] in wbefore and e[1] in tree.ids]
+                    if sorted(wnew) != sorted(rnew):
+                        viol.append(dict(clause="C02/observers-disagree", signature="C02/observers-disagree/%s" % op[0], step=step))
+                else:
+                    # (only objects the watcher was registered with when the notification was posted)
+                    owed_held += [e for e in rec.log[mark:] if e[0].endswith(".Changed") and e[1] in wbefore]
+                    if [e for e in watcher.log[wlen:]]:
+                        viol.append(dict(clause="C02/held-observer-served-early", signature="C02/held-observer-served-early/%s" % op[0],
+                                         step=step))
+                watcher.sync()
             if viol:
                 continue
             path = tree.path(i)
